@@ -355,6 +355,21 @@ func (s *c13Side) mutexHasKey(mid int32) bool {
 
 func c13MapLen(v reflect.Value) int { return v.Len() }
 
+// midHasNil reports whether midHandlerContainer holds a nil element under some message ID.
+func (s *c13Side) midHasNil() bool {
+	mpw := reflect.ValueOf(s.cc).Elem().FieldByName("midHandlerContainer").Elem()
+	r := false
+	lockSyncMap(mpw, func() {
+		it := mpw.FieldByName("data").MapRange()
+		for it.Next() {
+			if it.Value().IsNil() {
+				r = true
+			}
+		}
+	})
+	return r
+}
+
 // sizes reads every per-exchange table of the connection.
 func (s *c13Side) sizes() [c13NSizes]int {
 	var r [c13NSizes]int
@@ -1260,6 +1275,17 @@ func (p *c13Run) opOneway(dup bool) {
 // returns an error for every copy the tick retransmits)
 func (p *c13Run) opTick(ms int64, far bool, down bool) {
 	p.settle()
+	for _, s := range []*c13Side{p.a, p.b} {
+		if s.midHasNil() {
+			// a message ID that holds a nil element: the tick would dereference it inside Range's callback,
+			// which is fatal for the process; the history stops here, the tables read so far are reported
+			p.flags = append(p.flags, "nil element in the message-ID table of "+s.name)
+			p.hung = true
+		}
+	}
+	if p.hung {
+		return
+	}
 	p.ab.mu.Lock()
 	p.ab.silent = true
 	p.ab.fail = down
@@ -1467,6 +1493,9 @@ func (p *c13Run) finish() {
 			ms = c13FarMs
 		}
 		p.opTick(ms, true, p.downAtClose)
+		if p.hung {
+			return
+		}
 		if i == 0 {
 			// every deadline has passed and ONE tick has run: caches and block-wise buffers must be empty now
 			p.endStepK("close-1", true, false, true)
@@ -1736,7 +1765,7 @@ func sortInts(xs []int) { sort.Ints(xs) }
 func runC13(a runArgs) error {
 	e := NewEmitter("C13", "Conn.Run")
 	e.ShardSize = 40
-	e.Rule = "A case is one history of exchange-level operations on a back-to-back pair of real udp/client.Conn (plain, block-wise up/down, observe + notifications + cancel, ping, one-way; ending by success, silence+cancel, deadline, reset, malformed block, duplicate token, queued in the limiter then cancelled; duplicates per direction), all 11 table sizes of both connections read after every operation, after cancelling what still hangs, and after ageing + MAX_RETRANSMIT+1 far ticks. distinct = distinct descriptor; non-trivial = at least one operation that does not end by plain success."
+	e.Rule = "A case is one history of exchange-level operations on a back-to-back pair of real udp/client.Conn (plain, block-wise up/down, observe + notifications + cancel, ping, one-way; ending by success, silence+cancel, deadline, reset, malformed block, duplicate token, queued in the limiter then cancelled; duplicates per direction), all 11 table sizes of both connections read after every operation, after cancelling what still hangs, and after ageing + MAX_RETRANSMIT+1 far ticks. distinct = distinct descriptor; non-trivial = at least one operation that does not end by plain success (nest = a copy of a request contending for the per-ID lock counts). Sweep: one pkg/cache.Cache swept once; non-trivial = some but not all entries expired, or more than 32. Locks: a Lock/TryLock/Unlock script on one real MutexMap, entries + reference counts + goroutine states after every call; non-trivial = some call finds its key taken. MidRace: exchanges with message-ID continuations on one real connection, housekeeping ticks, one of them interrupted between Range's fetch and the callback with exchanges ending/starting there; non-trivial = contains an interrupted tick."
 	rng := NewRng(a.seed)
 	add := func(le int, ops []string, bucket string) {
 		coq, ok, bad := runC13History(le, ops)
